@@ -1,0 +1,5 @@
+//go:build !verif
+
+package netconf
+
+func verifYield(string) {}
